@@ -632,6 +632,8 @@ def kernel_record(seed, verts_family, small, wide=None):
     # the regime in which the floating-point inverse of the covariance is meaningful (conditioning is outside this technique)
     scale = min(scale, (GAUSS_MAX_RATIO if gauss else EXP_MAX_RATIO) * dmin)
     n = int(lin.params)
+    if n <= 4:
+        scale = min(scale, 0.5 * dmin)  # the Sylvester certificate on 32-bit minors (entries <= 64) needs scale <= half the vertex spacing
     scheme = "gaussian_kernel" if gauss else "exponential_kernel"
     c = float(rng.uniform(0.3, 3.0))
     desc.update({"coefficient": c, "scale": scale, "scale_over_min_spacing": scale / dmin})
